@@ -35,15 +35,24 @@ Theorem C16_double_gap : forall (M e n e' : Z),
 Proof. exact gap_gen. Qed.
 Print Assumptions C16_double_gap.
 
-(* finding C16-N4, exact class: `subs + 1` computed in an integer type with range lo..hi (lo <= 0) is the 1-based
-   subscript exactly when the stored subscript is not the type's largest value *)
+(* finding C16-N4 (repaired in /repo dda4ae2). The arithmetic of the OLD code, kept as history: `subs + 1` computed in an
+   integer type with range lo..hi (lo <= 0) is the 1-based subscript exactly when the stored subscript is not the type's
+   largest value *)
 Theorem C16_narrow_subs_exact : forall lo hi s : Z,
   (lo <= 0 <= s)%Z -> (s <= hi)%Z -> (wrap lo hi (s + 1) = s + 1 <-> s <> hi)%Z.
 Proof. exact narrow_subs_exact. Qed.
 Print Assumptions C16_narrow_subs_exact.
 
-(* ... and at the largest value the text written (lo) makes the base-1 sparse import reject the entry line *)
+(* (history) ... and at the largest value the text the OLD code wrote (lo) made the base-1 sparse import reject the entry line *)
 Theorem C16_narrow_subs_rejected : forall (T : Type) (lo hi : Z) (pre post : list (token T)),
   (lo <= 0 <= hi)%Z -> zsubs_of T 1 (pre ++ Int (wrap lo hi (hi + 1)) :: post) = None.
 Proof. exact narrow_subs_rejected. Qed.
 Print Assumptions C16_narrow_subs_rejected.
+
+(* THE CLAIM for the current code: the REPAIRED export writes s + b computed in Z (`str(int(s) + 1)`): subscripts of any integer type, the type's largest
+   value hi included (uint8 255 -> "256"), are read back by the sparse import with the same base. (The whole object:
+   C16_roundtrip_sptensor_long in Props/C16.v, for every shape in Z.) *)
+Theorem C16_narrow_subs_roundtrip : forall (T : Type) (b hi : Z) (i : list Z),
+  Forall (fun s => (0 <= s <= hi)%Z) i -> zsubs_of T b (map (fun s => Int (s + b)%Z) i) = Some i.
+Proof. exact narrow_subs_roundtrip. Qed.
+Print Assumptions C16_narrow_subs_roundtrip.
